@@ -1,0 +1,11 @@
+//go:build !verif
+
+package ptracer
+
+func verifEvent(name string, kv ...any) {}
+
+func verifPoint(name string) {}
+
+func verifWait(pid int, err error, wstatus uint32, execved bool) {}
+
+func verifErr(err error) string { return "" }
